@@ -198,7 +198,32 @@ def replay_sqrtm(p):
     return False, 'backward agrees with finite differences'
 
 
-REPLAYERS = {'sqrtm': replay_sqrtm, 'gate': replay_gate, 'sweep': replay_sweep, 'kl': replay_kl}
+def replay_sqrtm_batch(p):
+    import torch
+    import numqi._torch_op as TO
+    n, repeat, B = p['n'], p['repeat'], p['B']
+    g = np.random.default_rng(11)
+    for trial in range(40):
+        mats, gs = [], []
+        for b in range(B):
+            r = n if (trial + b) % 2 else n - 1            # mix full-rank and rank-deficient members
+            M = g.normal(size=(n, r)) + 1j * g.normal(size=(n, r))
+            mats.append(M @ M.conj().T)
+            Gm = g.normal(size=(n, n)) + 1j * g.normal(size=(n, n))
+            gs.append(Gm + Gm.conj().T)
+        Ab, Gb = torch.tensor(np.stack(mats)), torch.tensor(np.stack(gs))
+        _, ctx = TO._torch_psd_sqrtm_forward_repeat(Ab, repeat)
+        full = TO._torch_psd_sqrtm_backward_repeat(Gb, ctx, repeat).numpy()
+        for b in range(B):
+            one = TO._torch_psd_sqrtm_backward_repeat(Gb[b:b + 1], tuple(t[b:b + 1] for t in ctx), repeat).numpy()[0]
+            if not np.all(np.isfinite(one)) or not np.all(np.isfinite(full[b])):
+                continue
+            if np.abs(full[b] - one).max() > 1e-9 * max(1.0, np.abs(one).max()):
+                return True, f'PSD matrix root backward (n={n}, repeat={repeat}): member {b} of a batch of {B} differs from the same member alone by {np.abs(full[b] - one).max():.3g}'
+    return False, 'batched backward equals per-member backward on 40 mixed-rank batches'
+
+
+REPLAYERS = {'sqrtm': replay_sqrtm, 'sqrtm_batch': replay_sqrtm_batch, 'gate': replay_gate, 'sweep': replay_sweep, 'kl': replay_kl}
 
 
 # ---------------------------------------------------------------- stand-ins for torch objects
@@ -430,6 +455,44 @@ def run(chk):
     def eqm(a_, b_):
         return [H.eq_sc(x, y) for x, y in zip(a_.reshape(-1), b_.reshape(-1))]
 
+    # batches, including members with exactly-zero eigenvalues (the 0/0 diagonal terms are zeroed per member): batched backward == per-member backward
+    for n, repeat, B in ((2, 1, 2),) if quick else ((2, 1, 2), (2, 2, 2), (3, 1, 2), (2, 1, 3)):
+        chk.configurations += 1
+        tag = f'sb{n}{repeat}{B}_'
+        svb = [[S.sc_var(tag + f's{b}_{j}') for j in range(n)] for b in range(B)]
+        Ub = H.cx_array(tag + 'u', (B, n, n))
+        Gb = A.sym_array(np.stack([A.plain(H.herm_array(tag + f'g{b}_', n)) for b in range(B)]), np.complex128)
+        tf = SYT.torch_facade()
+        pre = [(x_ >= 0).n for row in svb for x_ in row]
+
+        def body3(Gb=Gb, Ub=Ub, svb=svb, n=n, repeat=repeat, B=B):
+            st_all = SYT.tensor(A.sym_array(np.array(svb, dtype=object), np.float64))
+            full = TO._torch_psd_sqrtm_backward_repeat(SYT.tensor(Gb.copy()), (st_all, SYT.tensor(Ub.copy())), repeat)
+            per = []
+            for b in range(B):
+                st_b = SYT.tensor(A.sym_array(np.array([svb[b]], dtype=object), np.float64))
+                per.append(TO._torch_psd_sqrtm_backward_repeat(SYT.tensor(Gb[b:b + 1].copy()), (st_b, SYT.tensor(Ub[b:b + 1].copy())), repeat))
+            return full, per
+        try:
+            paths, st = H.run_paths(body3, pre, extra_globals=TS.torch_globals(tf), feas_timeout_ms=2000, max_paths=300)
+        except S.EngineError as e:
+            chk.engine_error(f'PSD sqrtm batch n={n} repeat={repeat}', e)
+            continue
+        chk.add_path_stats(st)
+        rp = ('sqrtm_batch', {'n': n, 'repeat': repeat, 'B': B})
+        for pi, path in enumerate(paths):
+            if path.status != 'return':
+                chk.add(f'[PSD matrix root, n={n}, batch {B}] backward raises {type(path.value).__name__}: {path.value}', pre + path.pc + path.facts, ir.FALSE, key='PSD matrix root raises', replay=rp)
+                continue
+            full, per = path.value
+            fl = A.plain(full._sym)
+            cl = []
+            for b in range(B):
+                cl += [H.eq_sc(x, y) for x, y in zip(fl[b].reshape(-1), H.elems(per[b]._sym))]
+            chk.add(f'[PSD matrix root, n={n}, repeat={repeat}, batch {B}] batched backward == per-member backward, eigenvalues >= 0 incl. exact zeros (path {pi})',
+                    pre + path.pc + path.facts, ir.band_all(cl), key='PSD matrix root: batched backward differs from per-member backward', replay=rp)
+            # (the 0/0 entries the code overwrites are unconstrained reciprocal variables: the division side conditions are deliberately NOT assumed here)
+            chk.add(f'[PSD matrix root, n={n}, repeat={repeat}, batch {B}] reach (path {pi})', pre + path.pc + path.facts, ir.TRUE, kind='reach')
     # repeat >= 2 beyond the sizes the chain reaches: the r-round backward is the (r-1)-round backward (on s^2) of the one-round backward (on s) -
     # checked on the code itself; the one-round chain holds for every positive s, so the rounds compose
     for n, repeat in ((2, 2),) if quick else ((2, 2), (2, 3), (3, 2), (3, 3), (4, 2)):
@@ -438,7 +501,6 @@ def run(chk):
         sv_ = [S.sc_var(tag + f's{j}') for j in range(n)]
         U = H.cx_array(tag + 'u', (1, n, n))
         G = H.herm_array(tag + 'g', n)
-        SYT.HANDLERS['any'] = lambda x, *a_, **k: np.any(x)
         tf = SYT.torch_facade()
         pre = [(x_ > 0).n for x_ in sv_]
 
@@ -475,7 +537,6 @@ def run(chk):
             return SYT.tensor(A.sym_array(np.array(lam, dtype=object).reshape(1, n), np.float64)), SYT.tensor(U.copy())
         SYT.HANDLERS['linalg_eigh'] = eigh_h
         SYT.NOSHADOW.add('linalg_eigh')
-        SYT.HANDLERS['any'] = lambda x, *a_, **k: np.any(x)
         tf = SYT.torch_facade()
         pre = [(l_ > 0).n for l_ in lam]
 
